@@ -298,12 +298,48 @@ func (c *Ctx) childrenShape(v ssa.Value) (int, []*NodeShape, bool) {
 			}
 		}
 	}
-	// variable: a local built by append
+	// variable: a local built by append, possibly inside a helper that returns the slice
 	seen := map[ssa.Value]bool{}
 	var elems []*NodeShape
 	anyEl := false
-	var walk func(v ssa.Value)
-	walk = func(v ssa.Value) {
+	type fctx map[ssa.Value]*ssa.Function // function-valued parameters of the helper being looked into
+	var walk func(v ssa.Value, fb fctx, depth int)
+	// element: the shapes of one appended element value
+	element := func(ev ssa.Value, fb fctx, depth int) {
+		if sh := c.nodeShapeOf(ev); sh != nil {
+			elems = append(elems, sh)
+			return
+		}
+		// the result of a call: the shapes that function returns
+		var call *ssa.Call
+		switch x := ev.(type) {
+		case *ssa.Call:
+			call = x
+		case *ssa.Extract:
+			if x.Index == 0 {
+				call, _ = x.Tuple.(*ssa.Call)
+			}
+		}
+		if call == nil || depth > 3 {
+			anyEl = true
+			return
+		}
+		target := call.Call.StaticCallee()
+		if target == nil {
+			target = fb[call.Call.Value]
+		}
+		if target == nil || target.Blocks == nil || target == c.A.ParseExpr || target == c.A.Nud || target == c.A.Led {
+			anyEl = true
+			return
+		}
+		shs, ok := c.returnShapes(target, depth+1)
+		if !ok {
+			anyEl = true
+			return
+		}
+		elems = append(elems, shs...)
+	}
+	walk = func(v ssa.Value, fb fctx, depth int) {
 		if seen[v] {
 			return
 		}
@@ -311,18 +347,62 @@ func (c *Ctx) childrenShape(v ssa.Value) (int, []*NodeShape, bool) {
 		switch v := v.(type) {
 		case *ssa.Phi:
 			for _, e := range v.Edges {
-				walk(e)
+				walk(e, fb, depth)
 			}
 		case *ssa.Const:
+		case *ssa.Extract:
+			// a slice returned by a helper of the library: look at what the helper returns
+			call, ok := v.Tuple.(*ssa.Call)
+			callee := (*ssa.Function)(nil)
+			if ok {
+				callee = call.Call.StaticCallee()
+			}
+			if callee == nil || callee.Pkg != c.SLib || callee.Blocks == nil || depth > 3 {
+				anyEl = true
+				return
+			}
+			sub := fctx{}
+			for i, prm := range callee.Params {
+				if i >= len(call.Call.Args) {
+					break
+				}
+				if _, isSig := prm.Type().Underlying().(*types.Signature); !isSig {
+					continue
+				}
+				switch a := call.Call.Args[i].(type) {
+				case *ssa.Function:
+					sub[prm] = a
+				case *ssa.MakeClosure:
+					if f, ok := a.Fn.(*ssa.Function); ok {
+						sub[prm] = boundTarget(f)
+					}
+				case *ssa.Parameter:
+					if f := fb[a]; f != nil {
+						sub[prm] = f
+					}
+				}
+			}
+			for _, b := range callee.Blocks {
+				ret := blockReturn(b)
+				if ret == nil {
+					continue
+				}
+				res := retResults(ret)
+				if v.Index < len(res) {
+					walk(res[v.Index], sub, depth+1)
+				}
+			}
 		case *ssa.Call:
 			if b, ok := v.Call.Value.(*ssa.Builtin); ok && b.Name() == "append" {
-				walk(v.Call.Args[0])
+				walk(v.Call.Args[0], fb, depth)
 				if sl, ok := v.Call.Args[1].(*ssa.Slice); ok {
 					if al, ok := sl.X.(*ssa.Alloc); ok {
 						for _, r := range *al.Referrers() {
 							if ia, ok := r.(*ssa.IndexAddr); ok {
 								if s := c.shapeAtLoc(ia); s != nil {
 									elems = append(elems, s)
+								} else if _, whole := c.fieldStores(ia); len(whole) == 1 {
+									element(whole[0], fb, depth)
 								} else {
 									anyEl = true
 								}
@@ -339,8 +419,50 @@ func (c *Ctx) childrenShape(v ssa.Value) (int, []*NodeShape, bool) {
 			anyEl = true
 		}
 	}
-	walk(v)
+	walk(v, nil, 0)
 	return -1, elems, anyEl
+}
+
+// boundTarget: the method behind a bound-method wrapper (or f itself).
+func boundTarget(f *ssa.Function) *ssa.Function {
+	if f != nil && f.Synthetic != "" && f.Pkg == nil {
+		for _, b := range f.Blocks {
+			for _, in := range b.Instrs {
+				if call, ok := in.(*ssa.Call); ok {
+					if sc := call.Call.StaticCallee(); sc != nil {
+						return sc
+					}
+				}
+			}
+		}
+	}
+	return f
+}
+
+// returnShapes: the shapes of the nodes fn returns as its first result (error
+// returns of the zero node excluded); false when some return is not a node
+// built in fn.
+func (c *Ctx) returnShapes(fn *ssa.Function, depth int) ([]*NodeShape, bool) {
+	var out []*NodeShape
+	for _, b := range fn.Blocks {
+		ret := blockReturn(b)
+		if ret == nil {
+			continue
+		}
+		res := retResults(ret)
+		if len(res) == 0 || !c.isASTNode(res[0].Type()) {
+			return nil, false
+		}
+		sh := c.nodeShapeOf(res[0])
+		if sh == nil {
+			return nil, false
+		}
+		if sh.Zero {
+			continue
+		}
+		out = append(out, sh)
+	}
+	return out, len(out) > 0
 }
 
 // producers enumerates every place that builds an ASTNode.
@@ -431,6 +553,37 @@ func (c *Ctx) expandConstructor(s *NodeShape, fn *ssa.Function) ([]*NodeShape, b
 				}
 				k, ok := constInt(call.Call.Args[i])
 				if !ok {
+					// handed through: the caller's own parameter — expand the caller's call sites
+					if q, isPar := call.Call.Args[i].(*ssa.Parameter); isPar && caller != c.A.Led && caller != c.A.Nud && caller != fn {
+						if c.expandDepth > 3 {
+							return nil, false
+						}
+						up := cp
+						up.NodeTypeParam = q
+						if s.ValueParam != nil {
+							// a token payload is resolved at this level or not at all
+							j := idx(s.ValueParam)
+							if j < 0 || j >= len(call.Call.Args) {
+								return nil, false
+							}
+							if kv, ok := constInt(call.Call.Args[j]); ok {
+								up.ValueSet = []string{c.A.TokName[kv]}
+								up.ValueParam = nil
+							} else if qv, ok := call.Call.Args[j].(*ssa.Parameter); ok {
+								up.ValueParam = qv
+							} else {
+								return nil, false
+							}
+						}
+						c.expandDepth++
+						exp, ok := c.expandConstructor(&up, caller)
+						c.expandDepth--
+						if !ok {
+							return nil, false
+						}
+						out = append(out, exp...)
+						continue
+					}
 					return nil, false
 				}
 				cp.NodeType = c.A.NTName[k]
